@@ -735,11 +735,11 @@ static void worker(int w, int W, uint64_t start)
         vf_sibling_run(&gs, 2);
     }
     static const int cls[] = { LC_INT8, LC_NEG16, LC_INT32, LC_NEG64, LC_INTMIN, LC_STR, LC_STR0, LC_STRNUL, LC_STRHI, LC_STR128, LC_BYT, LC_BYT0, LC_DBL, LC_DBLBIG, LC_TRUE, LC_FALSE, LC_OBJ, LC_ARR };
-    static const vf_name names[] = { { (const uint8_t *) "", 0 }, { (const uint8_t *) "a", 1 }, { (const uint8_t *) "a\0b", 3 }, { (const uint8_t *) "a\0c", 3 }, { (const uint8_t *) "temp_max", 8 }, { (const uint8_t *) "temp_min", 8 }, { (const uint8_t *) "\x80\xff", 2 } };
+    static const vf_name names[] = { { (const uint8_t *) "", 0 }, { (const uint8_t *) "a", 1 }, { (const uint8_t *) "a\0b", 3 }, { (const uint8_t *) "a\0c", 3 }, { (const uint8_t *) "aab", 3 }, { (const uint8_t *) "ab", 2 }, { (const uint8_t *) "temp_max", 8 }, { (const uint8_t *) "temp_min", 8 }, { (const uint8_t *) "\x80\xff", 2 } };
     static vf_gen g;
     for (int root = VK_OBJ; root <= VK_ARR; root++) {
         memset(&g, 0, sizeof g);
-        g.root_kind = root; g.max_tokens = N_DOC; g.classes = cls; g.nclasses = 18; g.names = names; g.nnames = 7; g.max_obj_depth = 0;
+        g.root_kind = root; g.max_tokens = N_DOC; g.classes = cls; g.nclasses = 18; g.names = names; g.nnames = 9; g.max_obj_depth = 0;
         g.cb = on_doc;
         vf_gen_run(&g);
     }
